@@ -27,6 +27,7 @@ DECIDED = [
     "R-C07-FALSY (tests): on the transport path (job, brokers, consumers, processor) no truthiness test decides about a payload / priority / arguments value - presence is tested with `is None`",
     "R-C07-ALPHABET (prefix): the Redis topic prefixes end with the ':' separator (C11's rule reused)",
     "R-C07-MAP (fresh defaults): ids / timestamps / containers that must differ per object are produced by default_factory (dataclasses) or in the body (functions), never as eager defaults; R-C07-MARKER table row: explicit args_id + args + bucketer -> bucket stored",
+    "R-C07-MARKER (round 5): process() hands the delivered payload (the bucket reference), not the resolved arguments, to report_to_broker; R-C07-MAP: no class-body mutable container mutated through self in repid.connections (storage is per broker object)",
 ]
 NOT_DECIDED = ["value-level identity decode(encode(x)) == x (float round trip of durations at microsecond precision, timezones)"]
 ASSUMPTIONS = ["json round-trips str/int/bool/None; datetime.isoformat/fromisoformat and total_seconds/timedelta(seconds=float) are mutually inverse at the stated precision"]
@@ -36,10 +37,16 @@ DATA = ("repid.data._parameters.Parameters", "repid.data._parameters.DelayProper
 
 
 def run(ctx: Ctx) -> None:
+    from .ladder import check_process_passthrough
+
+    check_process_passthrough(ctx, "R-C07-MARKER")  # what is requeued is the delivered payload (the bucket reference), not the resolved arguments
     from .shared import fresh_defaults
 
     with ctx.as_rule("R-C07-MAP"):
         fresh_defaults(ctx, "R-C07-MAP")  # every routing key / bucket built without an explicit id gets its own
+    from .shared import per_instance_state
+
+    per_instance_state(ctx, "R-C07-MAP", ("repid.connections.",), "a bucket (or message) stored by one broker is replaced by what another broker object stores under the same id, so the consumer receives other arguments than were enqueued")
     codec(ctx)
     mapping(ctx)
     wire(ctx)
